@@ -537,6 +537,8 @@ pub fn exch_step_2a(
         if !is_zero(&sk, klen) {
             break;
         }
+        // nothing changes between iterations here: an all-zero key cannot be repaired by retrying
+        return Err(Sm9Error::KdfHashError);
     }
     Ok(sk)
 }
